@@ -157,8 +157,8 @@ fn run(ctx: &Ctx) {
         "every selector on every n in [0,2^17) (quick; 2^20 thorough) exhaustively; fixed boundary classes (tiny p*q, p^2, p^3 \
          with p,q in [211,4000) on all ten selectors; composites at the top of the u64 range and 57..64-bit semiprimes on the \
          64-bit selectors; all integers within a few units of 2^52, 2^64, 2^80, 2^128; 480..512-bit primes, prime powers, \
-         smooth*prime; 513..1023-bit inputs that must be refused; every bit length 416..512 (200..512 thorough) as a 24..36-bit \
-         prime times a prime on Ecm / Pm1 / Auto); plus proptest-generated composites of 14 shapes within each \
+         smooth*prime; 513..1023-bit inputs that must be refused; every bit length 432..512 (200..512 thorough) as a 24..36-bit \
+         prime times a prime on Ecm / Auto); plus proptest-generated composites of 14 shapes within each \
          selector's size precondition and time budget, default preferences, threads in {None,2} and use_double in {None,true,false}. Each case runs in a worker \
          subprocess under the opt and the chk profile. Non-trivial = the selector's algorithm ran (>= 2 prime factors above 199, \
          or unknown factorisation above 16 bits); distinct by (profile, selector, n, prefs).",
@@ -214,7 +214,7 @@ fn run(ctx: &Ctx) {
         //     reach (24..36 bits) times a prime fills the size, so that the multiprecision arithmetic (Montgomery form,
         //     modular inverses, gcd, the curve and stage-2 code) runs with moduli of every word/bit alignment there
         {
-            let lo = ctx.pick(416u32, 200);
+            let lo = ctx.pick(432u32, 200);
             let reps = ctx.pick(1u32, 3);
             let mut r = crate::oracle::int::SplitMix(crate::engine::hash64(&(ctx.seed, "c03-sizes", profile)));
             let mut cases = vec![];
@@ -223,7 +223,16 @@ fn run(ctx: &Ctx) {
                     let pb = 24 + r.below(13) as u32;
                     let p = gen_prime(pb, r.next());
                     let q = gen_prime(bits - pb, r.next());
-                    for alg in ["ecm", "pm1", "auto"] {
+                    // (Algo::Pm1 alone walks a schedule of minutes at these sizes when p-1 is not smooth: not used here)
+                    // quick tier: the selectors alternate with the size, opposite phases under the two profiles
+                    let algs: &[&str] = if !quick {
+                        &["ecm", "auto"]
+                    } else if (bits % 2 == 0) == (profile == "opt") {
+                        &["ecm"]
+                    } else {
+                        &["auto"]
+                    };
+                    for alg in algs {
                         cases.push(mk_case("every-size-small-x-prime", vec![p, q], alg, PrefSpec::default()));
                     }
                 }
@@ -285,7 +294,7 @@ fn run(ctx: &Ctx) {
     ctx.essential("shape:top-of-u64", 10);
     ctx.essential("shape:prime-power", 10);
     ctx.essential("prefs:verbose", 100);
-    ctx.essential("shape:every-size-small-x-prime", 200);
+    ctx.essential("shape:every-size-small-x-prime", 100);
 }
 
 fn replay(_ctx: &Ctx, check: &str, case: &Value) -> Result<(), Fail> {
